@@ -133,3 +133,131 @@ pub fn c11_hybrid_uint_truncated_extra_bits_is_eof() {
         kani::cover!(nbits > 0, "complete extra bits");
     }
 }
+
+/// One LZ77 step from a state with `N` symbols decoded (window of N symbolic values), against
+/// the step of ISO/IEC 18181-1 C.3.3.
+fn lz77_step_case<const N: usize>(symbol_conf: cv::IntConf, distance_conf: cv::IntConf, length_conf: cv::IntConf) {
+    let sconf = |c: &cv::IntConf| HybridConf { split_exponent: c.split_exponent, msb_in_token: c.msb_in_token, lsb_in_token: c.lsb_in_token };
+    let (sc, dc, lc) = (sconf(&symbol_conf), sconf(&distance_conf), sconf(&length_conf));
+    let values: [u32; N] = kani::any();
+    let mut window = Vec::with_capacity(N + 1);
+    let mut i = 0;
+    while i < N {
+        window.push(values[i]);
+        i += 1;
+    }
+    let num_decoded = N as u32;
+    let num_to_copy: u32 = kani::any();
+    let copy_pos: u32 = kani::any();
+    // invariant of the decoder: while a copy is pending the source position is behind the write position
+    kani::assume(num_to_copy == 0 || copy_pos < num_decoded);
+    let symbol_token: u16 = kani::any();
+    let distance_token: u16 = kani::any();
+    kani::assume(symbol_token < (1 << 15) && distance_token < (1 << 15));
+    let min_symbol: u32 = kani::any();
+    let min_length: u32 = kani::any();
+    // ranges of the LZ77 header fields (C.2.2): min_symbol in 224..=32775+8, min_length in 3..=264
+    kani::assume(min_symbol >= 224 && min_symbol <= 8 + 32767);
+    kani::assume(min_length >= 3 && min_length <= 264);
+    let dist_multiplier: u32 = kani::any();
+    // the multiplier is the largest channel width of one modular sub-image
+    kani::assume(dist_multiplier <= 1 << 24);
+    let stream: [u8; 16] = kani::any();
+    let bits = u128::from_le_bytes(stream);
+
+    // --- specification
+    let tok = symbol_token as u32;
+    let mut pos = 0u32;
+    let mut take = |n: u32| -> u32 {
+        let v = ((bits >> pos) & ((1u128 << n) - 1)) as u32;
+        pos += n;
+        v
+    };
+    let copying = num_to_copy > 0;
+    let is_copy_token = !copying && tok >= min_symbol;
+    // tokens whose extra-bit count is not below 32 are not produced by any encoder (the value would not fit u32)
+    if !copying {
+        if is_copy_token {
+            kani::assume(hybrid_nbits(&lc, tok - min_symbol) < 32);
+            kani::assume(hybrid_nbits(&dc, distance_token as u32) < 32);
+        } else {
+            kani::assume(hybrid_nbits(&sc, tok) < 32);
+        }
+    }
+    let (want_r, want_copy, want_pos, want_err);
+    if copying {
+        want_r = values[copy_pos as usize];
+        want_copy = num_to_copy - 1;
+        want_pos = copy_pos + 1;
+        want_err = false;
+    } else if is_copy_token {
+        let ln = hybrid_nbits(&lc, tok - min_symbol);
+        let len = hybrid_decode(&lc, tok - min_symbol, take(ln)) as u64 + min_length as u64;
+        let dn = hybrid_nbits(&dc, distance_token as u32);
+        let dv = hybrid_decode(&dc, distance_token as u32, take(dn));
+        let mut d = lz77_distance(dv, dist_multiplier);
+        if d > num_decoded as u64 {
+            d = num_decoded as u64;
+        }
+        if d > 1 << 20 {
+            d = 1 << 20;
+        }
+        let src = num_decoded - d as u32;
+        want_err = len > u32::MAX as u64;
+        want_r = values[src as usize];
+        want_copy = (len as u32).wrapping_sub(1);
+        want_pos = src + 1;
+    } else {
+        let n = hybrid_nbits(&sc, tok);
+        want_r = hybrid_decode(&sc, tok, take(n));
+        want_copy = 0;
+        want_pos = copy_pos;
+        want_err = false;
+    }
+    let want_bits = pos;
+
+    // --- real code
+    let mut bs = Bitstream::new(&stream[..]);
+    let snap = cv::Lz77Snapshot { window, num_to_copy, copy_pos, num_decoded };
+    let (r, after) = cv::lz77_step(&mut bs, symbol_token, distance_token, &symbol_conf, &distance_conf, &length_conf, min_symbol, min_length, dist_multiplier, snap);
+    match r {
+        Err(e) => {
+            assert!(want_err, "only a copy length overflowing u32 is an error");
+            core::mem::forget(e);
+        }
+        Ok(r) => {
+            assert!(!want_err);
+            assert!(r == want_r);
+            assert!(after.num_to_copy == want_copy);
+            if copying || is_copy_token {
+                assert!(after.copy_pos == want_pos);
+            }
+            assert!(after.num_decoded == num_decoded + 1);
+            assert!(after.window.len() == N + 1);
+            assert!(after.window[N] == want_r);
+            assert!(bs.num_read_bits() == want_bits as usize);
+            kani::cover!(is_copy_token && dist_multiplier > 1 && want_pos + 1 < num_decoded, "copy through the special distance table");
+            kani::cover!(is_copy_token && dist_multiplier == 0, "copy with plain distance");
+            kani::cover!(copying, "pending copy continues");
+            kani::cover!(!copying && !is_copy_token && want_bits > 0, "literal with extra bits");
+        }
+    }
+    core::mem::forget(after);
+}
+
+// @prop C04 C01
+// @tier quick
+// @unit jxl_coding::DecoderInner::read_varint_with_multiplier_clustered_lz77 (one call, through single-symbol prefix codes)
+// @sym state with 24 decoded symbols (window contents, pending copy count and source position symbolic under the decoder's invariant), symbol token and distance token (any 15-bit value), min_symbol, min_length, distance multiplier up to 2^24, 128 following bits; hybrid configurations fixed: symbols (4,1,0), distances (0,0,0), lengths (3,0,1)
+// @bound one step; 24 symbols decoded so far (all 120 special distances are distinguishable for multiplier 1 and 2 up to the clamp to 24); the 2^20 window wrap is outside
+// @assume extra-bit counts below 32 (tokens an encoder can produce); field ranges of the LZ77 header
+// @oblig result value, new pending count and source position, appended window entry and consumed bits equal the LZ77 step of C.3.3: literal via hybrid integer; copy length = hybrid(len token) + min_length; distance via kSpecialDistances with the multiplier (at least 1), plain distance + 1 without multiplier, value - 119 from 120 on; clamped to the symbols decoded
+#[kani::proof]
+#[kani::unwind(26)]
+pub fn c04_lz77_step_matches_spec() {
+    lz77_step_case::<24>(
+        cv::IntConf { split_exponent: 4, msb_in_token: 1, lsb_in_token: 0 },
+        cv::IntConf { split_exponent: 0, msb_in_token: 0, lsb_in_token: 0 },
+        cv::IntConf { split_exponent: 3, msb_in_token: 0, lsb_in_token: 1 },
+    );
+}
